@@ -29,6 +29,7 @@ def run(ctx, rep):
         first = ("payload", ("call", "parse::ParsingTable::get", (F_(me, "buckets"), ("Rem", hashv, nb))), "Ok")
         # index accumulator: header phi with entry = bucket value, back edge = chains.get(index)
         found = False
+        zero_when_empty = False
         idx_phis = []
         for ph, ops in an.phi_ops.items():
             if ph.args[0][1] not in an.loops:
@@ -36,7 +37,12 @@ def run(ctx, rep):
             body = an.loops[ph.args[0][1]]
             ent = [norm(v) for p, v in ops.items() if p not in body]
             bk = [norm(v) for p, v in ops.items() if p in body]
-            if ent == [first] and bk and set(bk) == {("payload", ("call", "parse::ParsingTable::get", (F_(me, "chains"), norm(ph))), "Ok")}:
+            empty_eq = ("Eq",) + tuple(sorted((nb, C(0)), key=repr))
+            # an empty bucket array may also be folded into the start index: 0 (the chain terminator) when nbucket == 0
+            first_or_zero = ("ite", empty_eq, C(0), first)
+            if ent == [first_or_zero]:
+                zero_when_empty = True
+            if ent in ([first], [first_or_zero]) and bk and set(bk) == {("payload", ("call", "parse::ParsingTable::get", (F_(me, "chains"), norm(ph))), "Ok")}:
                 found = True
                 idx_phis.append(norm(ph))
                 # the walk continues only while index != 0
@@ -74,7 +80,8 @@ def run(ctx, rep):
                 fs = fact_norms(st)
                 if ("true", ("Eq",) + tuple(sorted((nb, C(0)), key=repr))) in fs:
                     empties += 1
-        rep.require(empties == 1, "linkage", "find:empty", w, "None for an empty bucket array", "%d early-None outcomes guarded by buckets.is_empty()" % empties)
+        rep.require(empties == 1 or (zero_when_empty and found), "linkage", "find:empty", w, "None for an empty bucket array (early return, or start index 0 = end of chain)",
+                    "%d early-None outcomes guarded by buckets.is_empty()" % empties)
     # constructor: header then nbucket words then nchain words
     fn = F.fn("hash::SysVHashTable::new")
     if fn is not None:
